@@ -64,6 +64,22 @@ func c12MakeDefs(r *fw.Rand, owner string, ids []string) c12Defs {
 			d.styles[id] = &astisub.Style{ID: id, InlineStyle: &astisub.StyleAttributes{SSAFontName: owner}}
 		}
 	}
+	// regions rely on styles of their own list, styles inherit from styles of their own list (sorted keys: deterministic)
+	var sk []string
+	for k := range d.styles {
+		sk = append(sk, k)
+	}
+	sort.Strings(sk)
+	for _, id := range ids {
+		if rg := d.regions[id]; rg != nil && len(sk) > 0 && r.Bool() {
+			rg.Style = d.styles[fw.Pick(r, sk)]
+		}
+		if st := d.styles[id]; st != nil && len(sk) > 1 && r.P(1, 3) {
+			if p := d.styles[fw.Pick(r, sk)]; p != st && p.Style == nil {
+				st.Style = p
+			}
+		}
+	}
 	return d
 }
 
